@@ -157,6 +157,15 @@ func gen(seed uint64, tier string) Scenario {
 				sc.Peers[i].StallUS = r.Pick(100000, 1000000, 30000000) // up to "stopped reading for good"
 			}
 		}
+		// the other direction: the SERVER stops draining what a publisher sends (its side of the
+		// connection stalls); hash-derived so that no other choice moves
+		for i := range sc.Peers {
+			p := &sc.Peers[i]
+			if x := core.HS(seed, "c13.pubstall", "", uint64(i)); p.Role == "publish" && (p.Transport == "tcp" || p.Transport == "http") && x%100 < 50 {
+				p.StallAtUS = p.StartUS + int((x>>8)%uint64(sc.DurUS/2+1))
+				p.StallUS = []int{100000, 1000000, 30000000}[(x>>40)%3]
+			}
+		}
 	}
 	sc.Net = n
 	// one reader may use UDP-multicast (hash-derived so that no other choice of the scenario moves)
@@ -290,7 +299,7 @@ func run(t *testing.T, sc Scenario) *core.Result {
 	}
 	var summary map[string]any
 	res := sys.Run(t, opts, func(w *sys.World) {
-		w.ProbeInit("server_close_mid_run", "stream_close_mid_run", "client_close_concurrent", "client_close_mid_handshake", "close_inside_packet_callback", "close_inside_request_callback", "multicast_reader",
+		w.ProbeInit("server_close_mid_run", "stream_close_mid_run", "client_close_concurrent", "client_close_mid_handshake", "close_inside_packet_callback", "close_inside_request_callback", "server_side_stalled", "multicast_reader",
 			"client_close_while_playing", "client_close_while_recording", "close_with_stalled_peer", "peer_vanished",
 			"server_close_with_sessions", "census_attributed_goroutines", "publisher", "secure", "session_closed_by_timeout_or_peer")
 		owners := core.NewOwners(classify)
@@ -640,7 +649,15 @@ func run(t *testing.T, sc Scenario) *core.Result {
 				if p.StallUS > 0 {
 					w.S.After(us(p.StallAtUS-p.StartUS), "stall:"+name, func() {
 						for _, cn := range w.Net.Conns(name) {
-							cn.Stall(us(p.StallUS))
+							if p.Role == "publish" {
+								// the server's end stops receiving: the publisher's writes pile up
+								if pc := cn.Peer(); pc != nil {
+									pc.Stall(us(p.StallUS))
+								}
+								w.Probe("server_side_stalled")
+							} else {
+								cn.Stall(us(p.StallUS))
+							}
 						}
 					})
 				}
